@@ -193,15 +193,6 @@ def splitTop : Bool → Bytes → List Bytes
       | [] => [[c]]
       | x :: xs => (c :: x) :: xs
 
-/-- split on a separator byte: always at least one piece -/
-def splitOnByte (sep : UInt8) : Bytes → List Bytes
-  | [] => [[]]
-  | c :: r =>
-    if c == sep then [] :: splitOnByte sep r
-    else match splitOnByte sep r with
-      | [] => [[c]]
-      | x :: xs => (c :: x) :: xs
-
 def readISeg (b : Bytes) : ISeg :=
   if b == [cStar] then .wild else if b == [cStar, cStar] then .deep else .lit b
 
@@ -288,6 +279,14 @@ def isTemplateByte (c : UInt8) : Bool := isPcharByte c || c == cPct || c == cSla
 
 def illegalChar (s : Bytes) : Bool := s.any (fun c => !isTemplateByte c)
 
+/-- a `%` that is not followed by two hex digits (an ill-formed pchar) -/
+def badPercent : Bytes → Bool
+  | [] => false
+  | c :: r =>
+    (c == cPct && (match r with
+      | h1 :: h2 :: _ => !(isHexDigit h1 && isHexDigit h2)
+      | _ => true)) || badPercent r
+
 /-- brace scan: `none` = unbalanced or nested; `some d` = depth at the end -/
 def braceScan : Bool → Bytes → Option Bool
   | d, [] => some d
@@ -342,11 +341,12 @@ inductive MKey where
 
 /-- `*` matches any one component, `**` (last) any remaining components, a literal itself -/
 def matchKeys : List MKey → List Bytes → Bool
-  | [], [] => true
-  | [.multi], _ => true
+  | [], cs => cs.isEmpty
+  | .multi :: ks, _ => ks.isEmpty
   | .lit l :: ks, c :: cs => l == c && matchKeys ks cs
+  | .lit _ :: _, [] => false
   | .wild :: ks, _ :: cs => matchKeys ks cs
-  | _, _ => false
+  | .wild :: _, [] => false
 
 /-- remove `":" ++ verb` from the end of the last component (nothing to remove for the empty verb) -/
 def stripVerb (verb : Bytes) : List Bytes → Option (List Bytes)
@@ -364,6 +364,16 @@ def matchesB (keys : List MKey) (verb : Bytes) (comps : List Bytes) : Bool :=
   match stripVerb verb comps with
   | some cs => matchKeys keys cs
   | none => false
+
+/-- append `":" ++ verb` to the last component (nothing for the empty verb) -/
+def addVerb (verb : Bytes) : List Bytes → List Bytes
+  | [] => []
+  | [c] => [if verb.isEmpty then c else c ++ cColon :: verb]
+  | c :: d :: r => c :: addVerb verb (d :: r)
+
+/-- **Matching**: the path components are components the keys match, with the verb at the very end. -/
+def Matches (keys : List MKey) (verb : Bytes) (comps : List Bytes) : Prop :=
+  ∃ cs, matchKeys keys cs = true ∧ comps = addVerb verb cs
 
 def ISeg.mkey : ISeg → MKey
   | .wild => .wild
